@@ -100,6 +100,12 @@ fn real_main(args: &[String], scratch: &str) -> i32 {
                 "C10cfg" => conc::c10_configs(&mut ctx),
                 "C07cfg" => files::c07_configs(&mut ctx),
                 "C08" => files::c08(&mut ctx),
+                // the data-parallel batch paths under the controlled scheduler: separate checks, so that a change
+                // that defeats the scheduler (exit 2) does not take the enumeration of the same property down with it
+                "C04batch" => conc::batch_explore_family(&mut ctx, "oligo"),
+                "C08batch" => conc::batch_explore_family(&mut ctx, "cov"),
+                "C11batch" => conc::batch_explore_family(&mut ctx, "cgr"),
+                "C12batch" => conc::batch_explore_family(&mut ctx, "kcgr"),
                 other => {
                     eprintln!("unknown check {}", other);
                     return 2;
@@ -124,6 +130,7 @@ fn real_main(args: &[String], scratch: &str) -> i32 {
                 "C05sched" | "C14sched" | "C14lattice" | "C07sched" => conc::replay(&mut ctx, &args[2..]),
                 "C10s2m" | "C10m2s" | "C10s2m-free" | "C10m2s-free" | "C10big" => conc::replay_min(&mut ctx, &args[2..]),
                 "C05cfg" => conc::replay_c05cfg(&mut ctx, &args[2..]),
+                "BatchSched" => conc::replay_batch(&mut ctx, &args[2..]),
                 "OligoReuse" => conc::replay_oligo_reuse(&mut ctx, &args[2..]),
                 "C06" | "C06hist" | "C06long" | "C06size" | "C06header" | "C06many" | "C06huge" | "C06len" | "C07" | "C08" | "C08one" | "C08bin" | "C08direct" | "C08reuse" => files::replay(&mut ctx, &args[2..]),
                 other => {
